@@ -18,6 +18,8 @@ INJECT = {
     'in_stream_controller.rs': 'src/internals/stream_controller.rs',
     'in_subject.rs': 'src/subjects/subject.rs',
     'in_rx_error.rs': 'src/rx_error.rs',
+    'in_connectable.rs': 'src/operators/ref_count.rs',
+    'in_subjects2.rs': 'src/subjects/behavior_subject.rs',
 }
 
 
